@@ -8,8 +8,11 @@
    content of the whole file (C03_file_structure): header block, prologue, the records in order with upper-cased names,
    lock flags as negative name lengths, next-record offsets equal to the record lengths, POINT:DATA_START and the header
    word both naming the first data block, padding with the end marker, data.  That the loader of C01 reads it back is
-   C01_load_save; an independent decoder IN COQ is what is still missing for the statement above. *)
-From EZ Require Import Base Bytes Types Api Enc Dec Proofs_Section Proofs_Codec Proofs_Record Proofs_Chain Proofs_ChainW Float32 Run.
+   C01_load_save.  And ANOTHER READER, written from the format description and following only the file's own pointers
+   (Spec_Structure.v: parameter block address, data-start word, block count, next-record offsets), finds exactly the
+   records of the tree, the data-start block and the data (C03_other_reader).  That reader returns the bodies of the
+   records as bytes; their interpretation (type, dimensions, values) is the record theorem of C01. *)
+From EZ Require Import Base Bytes Types Api Enc Dec Proofs_Section Proofs_Codec Proofs_Record Proofs_Chain Proofs_ChainW Spec_Structure Proofs_Structure Float32 Run Properties_C01.
 Local Open Scope N_scope.
 
 (* padding: 1..512 zero bytes — there is always an end marker — ending on a block boundary, for every length *)
@@ -82,6 +85,27 @@ Proof.
   - exists sec, blocks, 1. split; [exact Hs|]. intros C. exfalso. apply (N.lt_irrefl 256). eapply N.le_lt_trans; eassumption.
 Qed.
 Print Assumptions C03_file_structure.
+
+(* the pointer-following reader on the saved file *)
+Theorem C03_other_reader : forall s bytes sec blocks,
+  wf_header (hdr s) -> ok_tree (groups s) -> (nds (recs_of (groups s) 1) <= 1)%nat ->
+  save s = Ok bytes -> section_bytes (pro s) (groups s) = Ok (sec, blocks) -> blocks + 1 < 256 ->
+  Forall wf_item (items_v (groups s) 1 (blocks + 1)) ->
+  spec_structure bytes = Some (map item_srec (items_v (groups s) 1 (blocks + 1)), blocks + 1, data_section (frames s)).
+Proof. exact spec_structure_save. Qed.
+Print Assumptions C03_other_reader.
+
+(* non-vacuity: the new object meets the hypotheses; the conclusion follows from the theorem *)
+Example C03_other_reader_nonvacuous : exists bytes, save init = Ok bytes /\
+  spec_structure bytes = Some (map item_srec (items_v (groups init) 1 3), 3, []).
+Proof.
+  destruct C01_parameter_section_nonvacuous as (Hok & [sec Hs] & Hn & _ & Wf & _).
+  assert (Sv : exists bytes, save init = Ok bytes) by (unfold save; rewrite Hs; eexists; reflexivity).
+  destruct Sv as [bytes Sv]. exists bytes. split; [exact Sv|].
+  apply (spec_structure_save init bytes sec 2); try assumption; try reflexivity.
+  unfold wf_header. cbn. repeat split; reflexivity.
+Qed.
+Print Assumptions C03_other_reader_nonvacuous.
 
 Example C03_scale_refuted : firstn 4 (skipn 12 (header_bytes init_header 3)) = [255; 255; 255; 255].
 Proof. vm_compute. reflexivity. Qed.
